@@ -103,9 +103,12 @@ def run_job(job, rec):
         d = int(rng.choice([1, 2, 3, 4]))
         target = mc.Interruptible(mc.GaussTarget(np.zeros(d), np.eye(d)))
         bounds = (np.full(d, -4.0), np.full(d, 4.0)) if (kind in ("pca", "hmc", "ensemble") and rng.random() < 0.4) else None
+        default_w = bool(kind in ("gibbs", "metropolis", "pca") and rng.random() < 0.3)    # proposal widths left to the library (start of either sign)
+        if default_w:
+            rec.count("cases:default_proposal_widths")
         ch = guarded(mc.make_sampler, kind, target, rng.normal(size=d) * 0.3, rng, grad=target.grad, bounds=bounds,
-                     display_progress=bool(rng.random() < 0.15), seed=int(rng.integers(2**31)))
-        ctx = {"program": c, "kind": kind, "d": d, "bounded": bounds is not None}
+                     display_progress=bool(rng.random() < 0.15), seed=int(rng.integers(2**31)), widths="default" if default_w else None)
+        ctx = {"program": c, "kind": kind, "d": d, "bounded": bounds is not None, "default_widths": default_w}
         rec.context = ctx
         if isinstance(ch, Raised):
             rec.violation("raised", f"{kind} construction raised {ch!r}", ctx)
